@@ -3,7 +3,7 @@
    call, written by the `fn' drivers of /verif/harness).  The contracts are the exact big-integer
    statements of the properties; which calls are recorded is decided by the drivers (boundary
    grids derived from the case analysis of the code + seeded random inputs).                    *)
-EXTENDS WpMath, Json, IOUtils, TLC, Sequences, FiniteSets
+EXTENDS WpMath, Json, IOUtils, TLC, Sequences, FiniteSets, SequencesExt
 
 CONSTANT Active
 Rec == ndJsonDeserialize(IOEnv.TRACE)
@@ -114,6 +114,39 @@ SdkSlipEvent(e) ==
   /\ Chk("C20", "min_on_safe_side", e.min.ok => (e.min.v \preceq e.est /\ e.min.v \doteq MulDivFloor(e.est, 10000 - e.bps, 10000)))
   /\ Chk("C20", "max_on_safe_side", e.max.ok => (e.est \preceq e.max.v /\ e.max.v \doteq MulDivCeil(e.est, 10000 + e.bps, 10000)))
 
+(* Swap records written by the swap hook while the REPOSITORY'S OWN TESTS run (cargo test with the hook cfg,
+   VERIF_TRACE_FILE): every swap those tests execute is held to the per-step contract (C02), the fee formula
+   and the split / budget bookkeeping (C06) and, on adaptive-fee pools, the rate of the accumulator (C14) -
+   whatever the tests themselves assert.                                                           *)
+RSeqSum(q, f(_)) == FoldLeft(LAMBDA acc, x : acc ++ f(x), 0, q)
+RStepX(sw, s_) == [rem |-> s_.remaining, rate |-> s_.rate, L |-> s_.liq, pc |-> s_.p0, pt |-> s_.btarget, exactIn |-> sw.exact_in, aToB |-> sw.a_to_b]
+RStepR(s_)     == [in |-> s_["in"], out |-> s_.out, p1 |-> s_.p1, fee |-> s_.fee]
+AfDenFull == (100000 \otimes 10000) \otimes 10000
+SwapRecordEvent(sw) ==
+  LET st   == sw.steps
+      sIn  == RSeqSum(st, LAMBDA s_ : s_["in"] ++ s_.fee)
+      sOut == RSeqSum(st, LAMBDA s_ : s_.out)
+      sFee == RSeqSum(st, LAMBDA s_ : s_.fee)
+      sCut == RSeqSum(st, LAMBDA s_ : ProtoCut(s_.fee, sw.pool.proto_rate))
+      fold == FoldLeft(LAMBDA g, s_ : GrowthAfter(g, s_.fee, sw.pool.proto_rate, s_.liq), IF sw.a_to_b THEN sw.pool.fg_a ELSE sw.pool.fg_b, st)
+      done == sw.done
+  IN /\ Chk("C02", "intree_step_contract", \A i \in DOMAIN st : StepOK(RStepX(sw, st[i]), RStepR(st[i])))
+     /\ Chk("C06", "intree_step_fee", \A i \in DOMAIN st : FeeOK(RStepX(sw, st[i]), RStepR(st[i])))
+     /\ Chk("C06", "intree_budget", /\ (Len(st) > 0 => st[1].remaining \doteq sw.amount)
+                                    /\ \A i \in DOMAIN st : st[i].remaining1 \doteq (IF sw.exact_in THEN (st[i].remaining -- st[i]["in"]) -- st[i].fee ELSE st[i].remaining -- st[i].out)
+                                    /\ \A i \in 1..(Len(st) - 1) : st[i + 1].remaining \doteq st[i].remaining1)
+     /\ Chk("C06", "intree_totals", done =>
+            /\ (IF sw.a_to_b THEN sw.result.amount_a ELSE sw.result.amount_b) \doteq sIn
+            /\ (IF sw.a_to_b THEN sw.result.amount_b ELSE sw.result.amount_a) \doteq sOut
+            /\ sw.result.proto \doteq sCut /\ sw.result.lp_fee \doteq (sFee -- sCut) /\ sw.result.fg \doteq fold)
+     /\ Chk("C14", "intree_rate", \A i \in DOMAIN st :
+            LET f == st[i].fm IN
+            IF f.kind = "adaptive"
+            THEN /\ f.vol_acc \preceq f.max_acc
+                 /\ st[i].rate \doteq AfTotalOf(f.static_rate, f.factor, f.group_size, f.vol_acc, AfDenFull, 100000)
+                 /\ (~st[i].skip => f.vol_acc \doteq AfAccOf(f.vol_ref, f.group_ref, f.group, 10000, f.max_acc))
+            ELSE st[i].rate \doteq sw.pool.fee_rate)
+
 -----------------------------------------------------------------------------
 Init == l = 1 /\ TLCSet(7, <<"none", "none">>) /\ TLCSet(8, "none")
 Next ==
@@ -126,6 +159,7 @@ Next ==
        [] e.k = "deltas" -> DeltasEvent(e)
        [] e.k = "maxliq" -> MaxLiqEvent(e)
        [] e.k = "tfee" -> TfeeEvent(e)
+       [] e.k = "swap" -> SwapRecordEvent(e)
        [] e.k = "sdk_ticks" -> SdkTicksEvent(e)
        [] e.k = "sdk_conv" -> SdkConvEvent(e)
        [] e.k = "sdk_est" -> SdkEstEvent(e)
